@@ -43,8 +43,8 @@ TRUSTED_BASE = [
 ]
 
 
-class CaseTimeout(Exception):
-    pass
+class CaseTimeout(BaseException):
+    """BaseException on purpose: stackscope contains `except Exception` blocks that must not swallow it."""
 
 
 @contextlib.contextmanager
@@ -55,7 +55,7 @@ def time_limit(seconds: float):
         raise CaseTimeout(f"no result after {seconds}s")
 
     old = signal.signal(signal.SIGALRM, handler)
-    signal.setitimer(signal.ITIMER_REAL, seconds)
+    signal.setitimer(signal.ITIMER_REAL, seconds, 0.25)  # keep firing until it gets out
     try:
         yield
     finally:
@@ -309,7 +309,8 @@ def write_replay(pid: str, payload: dict) -> Path:
     return p
 
 
-def safe_run_real(chk: PropCheck, case: dict, limit: float = 20.0) -> Any:
+def safe_run_real(chk: PropCheck, case: dict, limit: Optional[float] = None) -> Any:
+    limit = limit or getattr(chk, "real_time_limit", 20.0)
     try:
         with time_limit(limit):
             return chk.run_real(case)
@@ -362,7 +363,24 @@ def main_check(chk: PropCheck, argv: Optional[List[str]] = None) -> int:
     # ---- correspondence + oracle on the real code ------------------------------------------
     chk.setup()
     cases = chk.corpus() + chk.cases(rng, tier)
-    reals = [safe_run_real(chk, c) for c in cases]
+    reals = []
+    n_timeouts = 0
+    t_real = time.time()
+    real_budget = float(os.environ.get("VERIF_REAL_BUDGET", "900" if tier == "quick" else "3000"))
+    for c in cases:
+        if n_timeouts >= 3 or time.time() - t_real > real_budget:
+            # a tree on which inputs hang (or crawl): a few witnesses are enough, do not sit through thousands
+            reals.append({"__skipped__": True})
+            continue
+        r = safe_run_real(chk, c)
+        if isinstance(r, dict) and "__timeout__" in r:
+            n_timeouts += 1
+        reals.append(r)
+    skipped = [i for i, r in enumerate(reals) if isinstance(r, dict) and "__skipped__" in r]
+    if skipped:
+        keep = [i for i in range(len(cases)) if i not in set(skipped)]
+        cases = [cases[i] for i in keep]
+        reals = [reals[i] for i in keep]
     canon = []
     for c, r in zip(cases, reals):
         if isinstance(r, dict) and ("__timeout__" in r or "__harness_exception__" in r):
@@ -449,9 +467,30 @@ def main_check(chk: PropCheck, argv: Optional[List[str]] = None) -> int:
         broken.append(f"harness could not observe {len(harness_exc)} cases; first: case={json.dumps(cases[i])[:400]} {reals[i]['__harness_exception__']} {reals[i].get('tb','')[-600:]}")
 
     searched = 0
+    def fails(c):
+        r = safe_run_real(chk, c)
+        if isinstance(r, dict) and "__timeout__" in r:
+            return "did not terminate"
+        if isinstance(r, dict) and "__harness_exception__" in r:
+            return None
+        return chk.oracle(c, r)
+
+    def bounded_shrink(case):
+        t_s = time.time()
+
+        def failing(c):
+            if time.time() - t_s > 60:
+                return None
+            return fails(c)
+
+        try:
+            return chk.shrink(case, failing)
+        except Exception:
+            return case
+
     if unlisted:
         for i, f in unlisted[:3]:
-            case = chk.shrink(cases[i], lambda c: chk.oracle(c, safe_run_real(chk, c)))
+            case = bounded_shrink(cases[i])
             real = safe_run_real(chk, case)
             p = write_replay(pid, {"property": pid, "case": case, "failure": chk.oracle(case, real) or f,
                                    "observed": chk.canon(case, real) if not (isinstance(real, dict) and "__timeout__" in real) else real,
@@ -474,7 +513,7 @@ def main_check(chk: PropCheck, argv: Optional[List[str]] = None) -> int:
             if time.time() - t0 > float(os.environ.get("VERIF_SEARCH_BUDGET", "600")):
                 break
         if found:
-            case = chk.shrink(found[0], lambda c: chk.oracle(c, safe_run_real(chk, c)))
+            case = bounded_shrink(found[0])
             real = safe_run_real(chk, case)
             p = write_replay(pid, {"property": pid, "case": case, "failure": chk.oracle(case, real) or found[1],
                                    "observed": chk.canon(case, real) if not (isinstance(real, dict) and "__timeout__" in real) else real,
